@@ -175,6 +175,10 @@ def apply_op(m, op, f, alt):
     elif op == "mul_right":
         if alt == 2:
             m = m @ svg.Matrix(*vals)
+        elif alt == 3:         # the right operand given as text: M * "matrix(...)" is M * Matrix("matrix(...)")
+            m = m * ("matrix(%s)" % ",".join(repr(v) for v in vals))
+        elif alt == 4:
+            m *= "matrix(%s)" % " ".join(repr(v) for v in vals)
         elif alt:
             m *= svg.Matrix(*vals)
         else:
@@ -246,7 +250,9 @@ def check_case(case):
         for x in dis:
             x["functions"] = names
     else:
-        for alt in (False, True, 2):
+        for alt in (False, True, 2, 3, 4):
+            if alt in (3, 4) and not any(op == "mul_right" for op, f in hist):
+                continue
             try:
                 m = svg.Matrix()
                 for op, f in hist:
